@@ -577,3 +577,48 @@ const (
 	ruleReused  = " In one case of eight the request is additionally applied to an operator instance that was initialised with the request's attributes and has already been applied to one or two other valid input lists (an instance carries only its attributes: same expectation)."
 	ruleChained = " The split relation is also run as one graph of two chained nodes (first node's Y omitted in half of the cases, skipped optional inputs named \"\")."
 )
+
+// c05Shared: one kernel and bias (the same tensor objects) convolved with
+// several inputs of other batch size and spatial extents, and one input
+// convolved twice.
+func c05Shared(c *Ctx) {
+	r := c.R
+	var first mon.OpReq
+	var e1 Expect
+	var info convInfo
+	ok := false
+	for try := 0; try < 20 && !ok; try++ {
+		first, e1, info, ok = genConv(r, true)
+		// auto_pad=VALID is a recorded finding whose matcher is tied to one request: left to the single-request cases
+		ok = ok && e1.Kind == MustEqual && info.at.AutoPad != "VALID"
+	}
+	if !ok {
+		c.Skip("generator rejected the draw")
+		return
+	}
+	reqs, exps := []mon.OpReq{first}, []Expect{e1}
+	for n := r.Range(1, 2); n > 0; n-- {
+		xs := append([]int(nil), info.x.Shape...)
+		xs[0] = r.Range(1, 3)
+		for d := 2; d < len(xs); d++ {
+			xs[d] = maxInt(1, xs[d]+r.Range(-1, 2))
+		}
+		x := primeTensor(r, info.x.DT, xs)
+		q := first
+		q.Inputs = append([]*ref.T{x}, first.Inputs[1:]...)
+		want, err := ref.Conv(x, info.w, info.b, info.at)
+		if err != nil {
+			reqs, exps = append(reqs, q), append(exps, Expect{Kind: MustError, Why: err.Error()})
+			continue
+		}
+		reqs, exps = append(reqs, q), append(exps, Expect{Kind: MustEqual, Want: []*ref.Approx{want}, Mode: CmpTol, Why: "valid float32 request"})
+	}
+	if r.Bool() {
+		reqs, exps = append(reqs, first), append(exps, e1)
+	}
+	c.SetCase("one kernel/bias for %d Conv calls: %s", len(reqs), describeSeq(reqs))
+	c.Nontrivial(fmt.Sprintf("shared|%s|%s", shapesAll(reqs), attrsString(first)))
+	c.Count("class:shared-operand", 1)
+	asInit := r.Bool()
+	CheckOpsShared(c, reqs, exps, true, func(t *ref.T) bool { return asInit && (t == info.w || t == info.b) }, c05Known(info))
+}
